@@ -26,6 +26,14 @@ CHECKS = {
    technique="explicit-state BFS over histories; every transaction of the alphabet is executed from every reached state and ended by TransactionCancel and by real timer expiry (1 ms timeout), intended store and device compared with the pre-transaction snapshot",
    text="From every state reachable within the depth bound every transaction of the alphabet (create, change, shrink, re-prioritise, delete, two intents; ruling and shadowed) is applied and then cancelled, and separately left to expire; afterwards the canonical intended store must equal the snapshot taken before the transaction and every path the transaction sent to the device must be back at its previous value or absence.",
    note="Expiry uses the real timer goroutine with a 1 ms timeout and a 30 s watchdog (one active thread; interleavings of confirm/cancel/expiry are C16). Unmanaged leaves removed by an aggregated list-entry delete are not required to come back."),
+ "C06": dict(level="model_checking", engine="E4-sched", design="DESIGN.md §3 C06",
+   technique="exhaustive enumeration of API sequences (Set valid/invalid/dry-run/device-error, Confirm, Cancel with matching, other and stale ids, wait-for-timeout) up to a length bound on the source-instrumented build under the cooperative scheduler with virtual time, compared step by step with a reference state machine",
+   text="All sequences up to length 3 (quick) / 4 (thorough) over a 15-operation alphabet run on the real Datastore (real cache, recording device) compiled from instrumented sources, so that the rollback timer is a virtual-time event and a TransactionSet waiting for the datastore can be given up deterministically. Each step's return value and device traffic are compared with a reference machine (open in {none,id}); wrong-id calls must fail and leave the open transaction untouched (a later timeout still produces exactly one rollback); after every sequence the timeout elapses and a fresh valid transaction must be admitted.",
+   note="One (default, non-preemptive) schedule per sequence; interleavings are C16's subject. The instrumenter rewrites sync/channel/select/go/time operations of pkg/datastore, pkg/datastore/types and pkg/server from the working tree; anything it cannot classify is a hard error."),
+ "C16": dict(level="model_checking", engine="E4-sched", design="DESIGN.md §3 C16",
+   technique="stateless depth-first exploration of all thread interleavings (iterative preemption bounding, timer expiry as environment deviation) of the real TransactionManager / Transaction / TransactionCancelTimer compiled from instrumented sources under a cooperative scheduler",
+   text="After a sequential set-up (register, record old intents, arm the rollback timer) every multiset of up to two (quick, plus selected triples) or three (thorough) of Confirm(t1), Cancel(t1), Confirm(other), Cancel(other), Register(t2) runs concurrently with the timer-expiry environment event; all interleavings within the preemption/deviation bound are executed on the real code at the granularity of its lock, channel, select and timer operations. Every execution must end without panic (double close) or deadlock, with at most one rollback, no rollback after a successful Confirm, exactly one after a successful Cancel or an unanswered expiry, wrong-id calls failing without effect, and the slot released iff the transaction is resolved.",
+   note="Sequential consistency; the rollback itself is a recording stub with two scheduling points (harness A). Bounds completed are printed in the evidence."),
  "C07": dict(level="fault_enumeration", engine="E2-faults", design="DESIGN.md §3 C07",
    technique="exhaustive single-fault enumeration over every call the Datastore makes to target.Target, cache.Client and schema.Client during the last transaction of 10 scenarios (error and restart-at-call), each followed by a retry and compared with the fault-free run",
    text="For each scenario the last transaction runs fault-free on the real Datastore/cache to learn its collaborator call sequence; then every call k is made to fail once (error; Read returns nothing) and, separately, the process is cut off at call k and the Datastore rebuilt over the same cache. A device fault must yield an error, unchanged intent store and running mirror and an unlocked datastore; after every fault the repeated request must succeed and reach the fault-free device configuration and intent store. The fault space (calls x kinds) is enumerated completely.",
@@ -86,7 +94,7 @@ for p in props:
 hooks_commits = subprocess.run(["git", "-C", "/repo", "log", "--format=%h %s", "--grep=^verif hooks"], capture_output=True, text=True).stdout.strip().splitlines()
 m = {
  "version": 1,
- "setup_cmd": "./build.sh",
+ "setup_cmd": "./build.sh && ./build-i.sh",
  "hooks": {
    "guard": "verif",
    "enable": "go build -tags verif (harness module /verif/harness with replace github.com/sdcio/data-server => /repo)",
@@ -97,6 +105,7 @@ m = {
  "engines": [
    {"name": "E2-faults", "path": "harness/h/check_c07.go", "serves_properties": ["C07", "C18"], "kind_free_text": "fault enumeration: every assignment of failure behaviours to the collaborator calls of one operation, each executed on the real code"},
    {"name": "E3-inputs", "path": "harness/h/check_c15.go", "serves_properties": ["C11", "C12", "C15", "C20"], "kind_free_text": "bounded-exhaustive enumeration of inputs / store contents over explicit finite domains, each case executed on the real code and judged by a reference model"},
+   {"name": "E4-sched", "path": "rt/rt.go", "serves_properties": ["C06", "C16"], "kind_free_text": "controlled cooperative scheduler (rt/) + typed-AST source instrumenter (instr/) + stateless DFS with iterative preemption/deviation bounding (rt/explore.go); the implementation's own sync, channel, select, go and time operations are the scheduling points"},
    {"name": E1, "path": "harness/h/explore.go", "serves_properties": sorted(k for k, v in CHECKS.items() if v["engine"] == E1),
     "kind_free_text": "level-synchronous explicit-state search; successor = replay of the shortest history on a fresh real Datastore/cache instance + one operation; canonical state key without timestamps; per-property oracle plug-ins"},
  ],
